@@ -427,6 +427,10 @@ func (c *Ctx) squareCase(sc sqCase) {
 				fail("C04", fmt.Sprintf("BlobShareRange(tx %d, blob %d) = %v, the blob's shares are [%d,%d)", nKeptNormal+p.txPos, p.blobPos, rangeOutBare(r, err), p.idx, p.idx+nsh))
 				fail("C12", fmt.Sprintf("BlobShareRange(tx %d, blob %d) = %v, the blob's shares are [%d,%d)", nKeptNormal+p.txPos, p.blobPos, rangeOutBare(r, err), p.idx, p.idx+nsh))
 			}
+			// C13: the builder's predicted share count of the blob is what the encoder produces
+			if err == nil && r.End-r.Start != nsh {
+				fail("C13", fmt.Sprintf("the builder predicts %d shares for blob %d of kept blob tx %d (%d bytes, version %d); the encoder produces %d", r.End-r.Start, p.blobPos, p.txPos, len(p.blob.Data()), p.blob.ShareVersion(), nsh))
+			}
 		}
 		// ---- C03 region decomposition / canonical padding ----
 		covered := make([]bool, n)
